@@ -18,7 +18,7 @@ import falcon.testing
 import pyarrow as pa
 import zstandard as _zstd
 
-from vgi_rpc.rpc import RpcServer
+from vgi_rpc.rpc import AnnotatedBatch, CallContext, OutputCollector, RpcServer, Stream, StreamState
 
 _ORIG_ZD = _zstd.ZstdDecompressor
 ARROW_CT = "application/vnd.apache.arrow.stream"
@@ -27,14 +27,44 @@ CALLS: list[bytes] = []
 WATCHDOG_S = 120
 
 
+@dataclass
+class C17State(StreamState):
+    n: int = 0
+
+    def process(self, input: AnnotatedBatch, out: OutputCollector, ctx: CallContext) -> None:
+        out.finish()
+
+
 class C17Proto(Protocol):
+    """f plus methods whose NAMES start with the health endpoint's name (their routes are not the health endpoint)."""
+
     def f(self, data: bytes) -> int: ...
+    def healthz(self, data: bytes) -> int: ...
+    def health_check(self, data: bytes) -> int: ...
+    def health(self, data: bytes) -> int: ...
+    def healthcheck(self, data: bytes) -> Stream[C17State]: ...
 
 
 class C17Impl:
     def f(self, data: bytes) -> int:
         CALLS.append(data)
         return len(data)
+
+    def healthz(self, data: bytes) -> int:
+        CALLS.append(data)
+        return len(data)
+
+    def health_check(self, data: bytes) -> int:
+        CALLS.append(data)
+        return len(data)
+
+    def health(self, data: bytes) -> int:
+        CALLS.append(data)
+        return len(data)
+
+    def healthcheck(self, data: bytes) -> Stream[C17State]:
+        CALLS.append(data)
+        return Stream(output_schema=pa.schema([]), state=C17State())
 
 
 # --------------------------------------------------------------------------- trace of codec-library calls
@@ -237,7 +267,7 @@ DELIVERED: list[bytes] = []
 
 
 # --------------------------------------------------------------------------- app + requests
-def build_app(cap: int | None, zstd_disabled: bool, compression_level: int | None = 1) -> Any:
+def build_app(cap: int | None, zstd_disabled: bool, compression_level: int | None = 1, prefix: str = "") -> Any:
     from vgi_rpc.http import make_wsgi_app
 
     srv = RpcServer(C17Proto, C17Impl())
@@ -248,7 +278,7 @@ def build_app(cap: int | None, zstd_disabled: bool, compression_level: int | Non
         else:
             os.environ.pop("VGI_HTTP_DISABLE_ZSTD", None)
         app = make_wsgi_app(
-            srv, prefix="", max_request_bytes=cap, compression_level=compression_level, token_key=b"k" * 32,
+            srv, prefix=prefix, max_request_bytes=cap, compression_level=compression_level, token_key=b"k" * 32,
             enable_landing_page=False, enable_not_found_page=False, enable_describe_page=False,
         )
     finally:
